@@ -270,9 +270,9 @@ func init() {
 		Assumptions: []string{"reading D7: IRIs has no item-list view, so Remove is not in its alphabet", "items of distinct identity only (the stated domain)"},
 		Bound: func(tier string) string {
 			if tier == "thorough" {
-				return "pool of 4: all histories of depth <= 5 over 15 operations; pool of 5: depth <= 4 over 19 operations; x 6 kinds x 2 start states; far states: each kind grown to 7..129 members in three ways (one by one, one variadic Append, pre-populated), then every continuation of depth <= 2 over 9-13 operations; a pool whose ids differ only inside the authority (IPv6 address, port after it) or in a query value"
+				return "pool of 4: all histories of depth <= 5 over 15 operations; pool of 5: depth <= 4 over 19 operations; x 6 kinds x 2 start states; far states: each kind grown to 7..129 members in three ways (one by one, one variadic Append, pre-populated), then every continuation of depth <= 2 over 9-13 operations; a pool whose ids differ only inside the authority (IPv6 address, port after it) or in a query value; families added after round 5: DESIGN.md 8.11"
 			}
-			return "pool of 5: all histories of depth <= 3 over 19 operations; pool of 4: depth <= 4 over 15 operations; x 6 kinds x 2 start states; far states: each kind grown to 7..129 members in three ways (one by one, one variadic Append, pre-populated), then every continuation of depth <= 2 over 9-13 operations; a pool whose ids differ only inside the authority (IPv6 address, port after it) or in a query value"
+			return "pool of 5: all histories of depth <= 3 over 19 operations; pool of 4: depth <= 4 over 15 operations; x 6 kinds x 2 start states; far states: each kind grown to 7..129 members in three ways (one by one, one variadic Append, pre-populated), then every continuation of depth <= 2 over 9-13 operations; a pool whose ids differ only inside the authority (IPv6 address, port after it) or in a query value; families added after round 5: DESIGN.md 8.11"
 		},
 		Run: c13Run,
 	})
